@@ -112,9 +112,19 @@ def gen_one(rng, tier):
 
 
 def gen_cases(tier, seed):
+    for i in range(3 if tier == 'quick' else 48):
+        rng = random.Random(f'C16/scale/{seed}/{tier}/{i}')
+        case = gen_one(rng, tier)
+        case['ctor']['nest'] = True
+        case['calls'] = [{'root': 0, 'nest': None, 'trim': None,
+                          'root_by_arg': False} for _ in range(20)]
+        yield case
     n = 1200 if tier == 'quick' else 16 * 5000
     for i in range(n):
-        yield gen_one(random.Random(f'C16/{seed}/{tier}/{i}'), tier)
+        case = gen_one(random.Random(f'C16/{seed}/{tier}/{i}'), tier)
+        # the factory may build handles that are falsy objects
+        case['falsy_handles'] = i % 5 == 0
+        yield case
 
 
 def expected_population(root, rules, trim):
@@ -182,6 +192,10 @@ def _run(case, desper, res, tmp):
 
         def load(self):
             return self.rec
+
+    if case.get('falsy_handles'):
+        RecHandle.__len__ = lambda self: 0
+        res.tags['falsy_handles'].add(True)
 
     def factory_for(index):
         def factory(path, *args, **kwargs):
